@@ -34,6 +34,8 @@ type World struct {
 	Refs   map[schema.GroupVersionKind][]dynamiccache.OwnerReference
 	Budget map[string]int
 	Passes int
+	// Notes is free-form monitor memory that is part of the state (history monitors).
+	Notes map[string]string
 	// Package-level environment (immutable script, shared between clones).
 	Pkg *PackageEnv
 }
@@ -66,12 +68,15 @@ func (p *countingPuller) Pull(_ context.Context, image string) (*packages.RawPac
 
 // New returns an empty world.
 func New() *World {
-	return &World{S: kmodel.NewStore(Kinds), Refs: map[schema.GroupVersionKind][]dynamiccache.OwnerReference{}, Budget: map[string]int{}}
+	return &World{S: kmodel.NewStore(Kinds), Refs: map[schema.GroupVersionKind][]dynamiccache.OwnerReference{}, Budget: map[string]int{}, Notes: map[string]string{}}
 }
 
 // Clone deep-copies the world.
 func (w *World) Clone() *World {
-	n := &World{S: w.S.Clone(), Refs: map[schema.GroupVersionKind][]dynamiccache.OwnerReference{}, Budget: map[string]int{}, Passes: w.Passes, Pkg: w.Pkg}
+	n := &World{S: w.S.Clone(), Refs: map[schema.GroupVersionKind][]dynamiccache.OwnerReference{}, Budget: map[string]int{}, Passes: w.Passes, Pkg: w.Pkg, Notes: map[string]string{}}
+	for k, v := range w.Notes {
+		n.Notes[k] = v
+	}
 	for k, v := range w.Refs {
 		n.Refs[k] = append([]dynamiccache.OwnerReference{}, v...)
 	}
@@ -392,6 +397,12 @@ func (w *World) Canon() string {
 	}
 	sort.Strings(bs)
 	fmt.Fprintf(&sb, "budget %v\n", bs)
+	var ns []string
+	for k, v := range w.Notes {
+		ns = append(ns, k+"="+v)
+	}
+	sort.Strings(ns)
+	fmt.Fprintf(&sb, "notes %v\n", ns)
 	return sb.String()
 }
 
